@@ -526,6 +526,39 @@ def run(world, rep, tier, only=None):
                        "first argument is a private copy (`&%s`) on which ext2fs_set_feature_metadata_csum() was applied before" % clone)
     rep.floor("C14.k superblock checksum calls in the journal front-ends", n_k, 3)
 
+    # ------------------------------------------------------------------ C14.l the walk that repairs extent checksums stops at every block
+    # ext2fs_fix_extents_checksums() rewrites the block the handle stands on whenever reading it reported a checksum
+    # failure (update_path() writes the current level only).  It therefore has to step through the tree one node at
+    # a time: an operation that descends or skips several levels in one call (NEXT_LEAF, NEXT_SIB, LAST_LEAF, …)
+    # reports the failure once and leaves the blocks passed on the way as they were.
+    libp = world.program("tune2fs")
+    fx = libp.fn("ext2fs_fix_extents_checksums", "lib/ext2fs/extent.c")
+    gets = calls_to(fx, "ext2fs_extent_get")
+    ups = calls_to(fx, "update_path")
+    # the step whose outcome is compared with EXT2_ET_EXTENT_CSUM_INVALID in front of update_path() (moving along the
+    # entries of one node, LAST_SIB, stays inside a block and is not such a step)
+    verdicts = []
+    for u_ in ups:
+        for t, a_ in control_lits(fx, u_):
+            if t is not None and "EXT2_ET_EXTENT_CSUM_INVALID" in T.macros(a_):
+                verdicts += [b_ for b_ in [fx.block_end(b) for b in fx.blocks if fx.literal(b) and fx.literal(b)[0] is a_]]
+    inloop = []
+    for c in gets:
+        if loop_head(fx, c) is None:
+            continue
+        # it is the last step in front of the verdict: no other step lies between
+        if any(v_ in fx.reach(fx.after(c), avoid=[g for g in gets if g is not c]) for v_ in verdicts):
+            inloop.append(c)
+    rep.floor("C14.l tree steps in ext2fs_fix_extents_checksums", len(inloop), 1)
+    for i, c in enumerate(inloop):
+        ms = T.macros(arg(c, 1) or {})
+        one = named_const(libp, "EXT2_EXTENT_NEXT")
+        v = T.const(arg(c, 1))
+        rep.ob("C14.l", site(fx, "the repair walk moves one node at a time#%d" % i),
+               ("EXT2_EXTENT_NEXT" in ms and not (ms - {"EXT2_EXTENT_NEXT"})) or (v is not None and one is not None and v == one),
+               "ext2fs_extent_get(handle, %s, …) inside the loop is EXT2_EXTENT_NEXT" % T.pp(arg(c, 1))[:30])
+    rep.ob("C14.l", site(fx, "a block that failed verification is rewritten"), bool(ups), "update_path() is called in the walk")
+
     # ------------------------------------------------------------------ C14.f CRC tables
     crc_tables(world, rep)
 
